@@ -364,6 +364,19 @@ theorem moveDim_existing_fails :
   revert h1
   decide
 
+/-- recursive resolution: `q = dim sv, 0` where the size of `sv` at position 0 is `d = dim a0, 1` (kept in the loop by a
+side-effecting user): the rebuilt dim queries dimension 1 of `a0` (the INNER dim's index), not dimension 0 -/
+example : moveDim [0, 1, 2]
+    (.loop 2 (.cst 0) (.cst 4) (.cst 1)
+      (.pure 3 (.dim 1) [.var 0] (.eff 1 [.var 3]
+        (.pure 4 (.subview 2) [.var 1, .var 3, .cst 8, .var 2, .cst 0]
+          (.pure 5 (.dim 0) [.var 4] (.pure 6 .alloc [.var 5] (.eff 2 [.var 6] .nil)))))) .nil) [0, 3]
+    = .ok (.pure 5 (.dim 1) [.var 0]
+      (.loop 2 (.cst 0) (.cst 4) (.cst 1)
+        (.pure 3 (.dim 1) [.var 0] (.eff 1 [.var 3]
+          (.pure 4 (.subview 2) [.var 1, .var 3, .cst 8, .var 2, .cst 0]
+            (.pure 6 .alloc [.var 5] (.eff 2 [.var 6] .nil))))) .nil)) := rfl
+
 theorem moveDim_fails : ¬ moveDim_statement := by
   intro h
   exact moveDim_min_fails (fun bargs prog path prog' hp _ I e => h bargs prog path prog' hp I e)
